@@ -64,6 +64,9 @@ def check(ctx):
         bt = big_text(kb, step, ch)
         srcs.append(("sv", bt))
         srcs.append(("pp", {"top.sv": "`include \"big.svh\"\n", "big.svh": bt}))
+    # a byte order mark in front of the top file / an included file: file and string entry points see the same bytes
+    srcs.append(("pp", {"top.sv": "\ufeffa b\n`include \"b.svh\"\nc\n", "b.svh": "\ufeffq // d\n"}))
+    srcs.append(("sv", "\ufeffmodule m; endmodule\n"))
     # include chains around the recursion limit: the file and the string entry points stop at the same level
     for depth in ((64, 65) if q else (1, 15, 63, 64, 65, 66)):
         fs = {"top.sv": "// top\nt0\n`include \"c1.svh\"\n"}
